@@ -95,6 +95,9 @@ func gramCases(j run.Job, yield func(c GCase)) {
 			if j.Param("nl", 0) == 1 && r.Intn(2) == 0 {
 				o.Alpha = "ab\n"
 			}
+			if j.Param("pct", 0) == 1 && r.Intn(3) == 0 {
+				o.Alpha = "a%\n" // a terminal whose text means something to a formatter
+			}
 			g := gram.Random(r, o)
 			fam := "random"
 			if o.Trims {
@@ -151,7 +154,7 @@ func gramCases(j run.Job, yield func(c GCase)) {
 		inputs := j.Param("inputs", 6)
 		maxLen := j.Param("maxlen", 9)
 		for gi := 0; gi < j.N; gi++ {
-			g := gram.HiddenLR(r)
+			g := gram.HiddenLRWith(r, j.Param("marks", 0) == 1)
 			for ii := 0; ii < inputs; ii++ {
 				nt := r.Intn(len(g.NTs))
 				bias := 85
@@ -160,6 +163,50 @@ func gramCases(j run.Job, yield func(c GCase)) {
 				}
 				in := g.RandomInput(r, nt, maxLen, bias)
 				yield(GCase{G: g, In: in, NT: nt, Fam: "hidden-lr"})
+			}
+		}
+	case "userlist":
+		// M (N1): a memoized nonterminal with three or more results at one position - built by a hand-written combinator
+		// with append, its list has spare capacity. X (N2) -> M | other, memoized too: its cached list starts out as M's.
+		// S (N0) -> X t | M? t | X t ... : consumers that EXTEND M's result at one position, while X's result is kept.
+		r := rand.New(rand.NewSource(j.Seed))
+		for gi := 0; gi < j.N; gi++ {
+			g := gram.New("abcd", 3)
+			x := g.Alpha[r.Intn(2)]
+			var alts []*gram.Expr
+			for k, n := 0, 3+r.Intn(3); k < n; k++ {
+				var rs []*gram.Expr
+				for q := 0; q <= k; q++ {
+					rs = append(rs, g.Rune(x))
+				}
+				if k == 0 {
+					alts = append(alts, rs[0])
+				} else {
+					alts = append(alts, g.Mk(gram.OpSeqOf, rs...))
+				}
+			}
+			r.Shuffle(len(alts), func(a, b int) { alts[a], alts[b] = alts[b], alts[a] })
+			g.NTs[1] = g.Mk(gram.OpAny, alts...)
+			other := []*gram.Expr{g.Mk(gram.OpSeqOf, g.Rune(x), g.Rune(x), g.Rune(x)), g.Rune(g.Alpha[r.Intn(4)]), g.Mk(gram.OpSeqOf, g.Rune(x), g.Rune('c'))}[r.Intn(3)]
+			g.NTs[2] = g.Mk(gram.OpAny, g.Ref(1), other)
+			ext := func() *gram.Expr {
+				switch r.Intn(4) {
+				case 0:
+					return g.Mk(gram.OpOpt, g.Ref(1))
+				case 1:
+					return g.Mk(gram.OpAny, g.Ref(1), g.Mk(gram.OpEmpty))
+				default:
+					return g.Ref(2)
+				}
+			}
+			var top []*gram.Expr
+			for k, n := 0, 3+r.Intn(3); k < n; k++ {
+				top = append(top, g.Mk(gram.OpSeqOf, ext(), g.Rune("bcd"[r.Intn(3)])))
+			}
+			g.NTs[0] = g.Mk(gram.OpAny, top...)
+			for ii := 0; ii < j.Param("inputs", 6); ii++ {
+				in := g.RandomInput(r, 0, 8, 85)
+				yield(GCase{G: g, In: in, NT: 0, Fam: "userlist"})
 			}
 		}
 	case "trimseq":
